@@ -10,6 +10,8 @@ import (
 	"encoding/json"
 	"fmt"
 	"math/big"
+	"net/http"
+	"net/http/httptest"
 	"os"
 	"runtime"
 	"strings"
@@ -25,11 +27,14 @@ import (
 	"github.com/ethereum/go-ethereum/common"
 	ethfilters "github.com/ethereum/go-ethereum/eth/filters"
 	"github.com/ethereum/go-ethereum/rpc"
+	"github.com/gorilla/websocket"
 	"pgregory.net/rapid"
 
 	"github.com/EscanBE/evermint/v12/indexer"
+	evrpc "github.com/EscanBE/evermint/v12/rpc"
 	"github.com/EscanBE/evermint/v12/rpc/ethereum/pubsub"
 	"github.com/EscanBE/evermint/v12/rpc/namespaces/ethereum/eth/filters"
+	serverconfig "github.com/EscanBE/evermint/v12/server/config"
 
 	"verif/harness/chain"
 	"verif/harness/cometfake"
@@ -41,6 +46,7 @@ type c20RaceOp struct {
 	Topic int    `json:"topic,omitempty"`
 	Crit  int    `json:"crit,omitempty"`
 	N     int    `json:"n,omitempty"`
+	Msg   int    `json:"msg,omitempty"` // ws: index into the message templates
 }
 
 type c20RaceCase struct {
@@ -49,7 +55,7 @@ type c20RaceCase struct {
 }
 
 func genC20Race(t *rapid.T) c20RaceCase {
-	cs := c20RaceCase{Mode: rapid.SampledFrom([]string{"bus", "filters", "filters", "indexer"}).Draw(t, "mode")}
+	cs := c20RaceCase{Mode: rapid.SampledFrom([]string{"bus", "filters", "filters", "indexer", "ws", "ws"}).Draw(t, "mode")}
 	var ops []string
 	switch cs.Mode {
 	case "bus":
@@ -57,13 +63,16 @@ func genC20Race(t *rapid.T) c20RaceCase {
 	case "filters":
 		ops = []string{"newfilter", "newfilter", "newblockfilter", "newpendingfilter", "uninstall", "uninstall", "changes", "tx", "tx", "tx", "header", "header", "logs",
 			"subheads", "sublogs", "subpending", "unsubrpc"}
+	case "ws":
+		ops = []string{"wssub", "wssub", "wssub", "wsunsub", "wsunsub", "wsraw", "wsraw", "tx", "tx", "header", "header", "wsreconnect"}
 	default:
 		ops = []string{"index", "index", "byhash", "byhash", "byindex", "last"}
 	}
 	for w, nw := 0, rapid.IntRange(2, 6).Draw(t, "nworkers"); w < nw; w++ {
 		var list []c20RaceOp
 		for i, n := 0, rapid.IntRange(3, 25).Draw(t, "nops"); i < n; i++ {
-			list = append(list, c20RaceOp{Op: rapid.SampledFrom(ops).Draw(t, "op"), Topic: rapid.IntRange(0, 2).Draw(t, "topic"), Crit: rapid.IntRange(0, 7).Draw(t, "crit"), N: rapid.IntRange(0, 5).Draw(t, "n")})
+			list = append(list, c20RaceOp{Op: rapid.SampledFrom(ops).Draw(t, "op"), Topic: rapid.IntRange(0, 2).Draw(t, "topic"), Crit: rapid.IntRange(0, 7).Draw(t, "crit"), N: rapid.IntRange(0, 5).Draw(t, "n"),
+				Msg: rapid.IntRange(0, 63).Draw(t, "msg")})
 		}
 		cs.Workers = append(cs.Workers, list)
 	}
@@ -410,6 +419,125 @@ func runC20Race(cs c20RaceCase) *Outcome {
 		}
 		time.Sleep(50 * time.Millisecond) // let in-flight deliveries hit the (un)installed subscriptions
 
+	case "ws":
+		// the node's own websocket server (rpc/websockets.go): raw client messages - well-formed and not - decide what its
+		// read loop and its per-subscription goroutines do, while the consensus node keeps delivering events
+		env := getRaceEnv()
+		wsn, err := cometfake.NewWSNode()
+		if err != nil {
+			o.Excluded = "cannot start the websocket endpoint: " + err.Error()
+			return o
+		}
+		defer wsn.Close()
+		wsc, err := wsn.Client()
+		if err != nil {
+			o.Excluded = "cannot connect the websocket client: " + err.Error()
+			return o
+		}
+		defer func() { _ = wsc.Stop() }()
+		cfg := serverconfig.DefaultConfig()
+		cfg.JSONRPC.Address = "127.0.0.1:1" // forwarded (non-subscription) requests find nobody: an error reply, nothing more
+		handler, ok := evrpc.NewWebsocketsServer(env.node.cctx, log.NewNopLogger(), wsc, cfg).(http.Handler)
+		if !ok {
+			o.Excluded = "the websocket server is not an http.Handler"
+			return o
+		}
+		ts := httptest.NewServer(handler)
+		defer ts.Close()
+		url := "ws" + strings.TrimPrefix(ts.URL, "http") + "/"
+		type wsClient struct {
+			conn *websocket.Conn
+			mu   sync.Mutex
+			subs []string
+			done chan struct{}
+		}
+		dial := func() *wsClient {
+			conn, _, err := websocket.DefaultDialer.Dial(url, nil)
+			if err != nil {
+				return nil
+			}
+			cl := &wsClient{conn: conn, done: make(chan struct{})}
+			go func() {
+				defer close(cl.done)
+				for {
+					_, bz, err := conn.ReadMessage()
+					if err != nil {
+						return
+					}
+					var m map[string]interface{}
+					if json.Unmarshal(bz, &m) != nil {
+						continue // nothing to assert on the content of replies
+					}
+					if id, ok := m["result"].(string); ok && strings.HasPrefix(id, "0x") {
+						cl.mu.Lock()
+						cl.subs = append(cl.subs, id)
+						cl.mu.Unlock()
+					}
+				}
+			}()
+			return cl
+		}
+		var installing int32
+		run(func(ops []c20RaceOp) {
+			cl := dial()
+			if cl == nil {
+				return
+			}
+			send := func(msg string) {
+				_ = cl.conn.SetWriteDeadline(time.Now().Add(5 * time.Second))
+				_ = cl.conn.WriteMessage(websocket.TextMessage, []byte(msg))
+			}
+			for _, op := range ops {
+				switch op.Op {
+				case "wssub":
+					atomic.AddInt32(&installing, 1)
+					send(c20WSSubs[op.Msg%len(c20WSSubs)])
+					atomic.AddInt32(&installing, -1)
+				case "wsunsub":
+					cl.mu.Lock()
+					id := "0xdeadbeef"
+					if len(cl.subs) > 0 && op.N%4 != 0 {
+						id = cl.subs[0]
+						cl.subs = cl.subs[1:]
+					}
+					cl.mu.Unlock()
+					atomic.AddInt32(&installing, 1)
+					send(fmt.Sprintf(`{"jsonrpc":"2.0","id":%d,"method":"eth_unsubscribe","params":["%s"]}`, op.N+1, id))
+					atomic.AddInt32(&installing, -1)
+				case "wsraw":
+					send(c20WSRaw[op.Msg%len(c20WSRaw)])
+				case "wsreconnect":
+					_ = cl.conn.Close()
+					<-cl.done
+					if cl = dial(); cl == nil {
+						return
+					}
+				case "tx":
+					ev := env.events[(op.N*7+op.Crit)%len(env.events)]
+					if wsn.PublishMatching("'Tx'", ev.Data, ev.Events) > 0 && atomic.LoadInt32(&installing) > 0 {
+						atomic.AddInt32(&overlap, 1)
+					}
+				case "header":
+					rec := env.blocks[op.N%len(env.blocks)]
+					blk, _ := env.node.f.Block(context.Background(), &rec.Height)
+					if wsn.PublishMatching("NewBlockHeader", cmttypes.EventDataNewBlockHeader{Header: blk.Block.Header}, map[string][]string{"tm.event": {"NewBlockHeader"}}) > 0 && atomic.LoadInt32(&installing) > 0 {
+						atomic.AddInt32(&overlap, 1)
+					}
+				}
+			}
+			time.Sleep(20 * time.Millisecond)
+			_ = cl.conn.Close()
+			<-cl.done
+		})
+		// events keep arriving after every client has gone
+		for i := 0; i < 3; i++ {
+			ev := env.events[i%len(env.events)]
+			wsn.PublishMatching("'Tx'", ev.Data, ev.Events)
+			blk, _ := env.node.f.Block(context.Background(), &env.blocks[0].Height)
+			wsn.PublishMatching("NewBlockHeader", cmttypes.EventDataNewBlockHeader{Header: blk.Block.Header}, map[string][]string{"tm.event": {"NewBlockHeader"}})
+		}
+		time.Sleep(50 * time.Millisecond)
+
 	case "indexer":
 		env := getRaceEnv()
 		idx := indexer.NewKVIndexer(sdkdb.NewMemDB(), log.NewNopLogger(), env.node.cctx)
@@ -470,4 +598,47 @@ func TestC20Race(t *testing.T) {
 		}
 		return o
 	})
+}
+
+// c20WSSubs are eth_subscribe messages: every documented kind, criteria of every accepted shape, and shapes the
+// hand-written parameter decoding of the server has to refuse.
+var c20WSSubs = []string{
+	`{"jsonrpc":"2.0","id":1,"method":"eth_subscribe","params":["newHeads"]}`,
+	`{"jsonrpc":"2.0","id":2,"method":"eth_subscribe","params":["logs"]}`,
+	`{"jsonrpc":"2.0","id":3,"method":"eth_subscribe","params":["logs",{}]}`,
+	`{"jsonrpc":"2.0","id":4,"method":"eth_subscribe","params":["logs",{"address":"0xc0de000000000000000000000000000000000001"}]}`,
+	`{"jsonrpc":"2.0","id":5,"method":"eth_subscribe","params":["logs",{"address":["0xc0de000000000000000000000000000000000001","0xc0de000000000000000000000000000000000002"],"topics":["0x00000000000000000000000000000000000000000000000000000000000000a0"]}]}`,
+	`{"jsonrpc":"2.0","id":6,"method":"eth_subscribe","params":["logs",{"topics":[null,["0x00000000000000000000000000000000000000000000000000000000000000a0","0x00000000000000000000000000000000000000000000000000000000000000a1"]]}]}`,
+	`{"jsonrpc":"2.0","id":7,"method":"eth_subscribe","params":["logs",{"topics":[[],null,"0x00000000000000000000000000000000000000000000000000000000000000a2"]}]}`,
+	`{"jsonrpc":"2.0","id":8,"method":"eth_subscribe","params":["newPendingTransactions"]}`,
+	`{"jsonrpc":"2.0","id":9,"method":"eth_subscribe","params":["syncing"]}`,
+	`{"jsonrpc":"2.0","id":"10","method":"eth_subscribe","params":["newHeads"]}`,
+	`{"jsonrpc":"2.0","id":11,"method":"eth_subscribe","params":["logs",5]}`,
+	`{"jsonrpc":"2.0","id":12,"method":"eth_subscribe","params":["logs",{"address":5}]}`,
+	`{"jsonrpc":"2.0","id":13,"method":"eth_subscribe","params":["logs",{"address":["0xc0de000000000000000000000000000000000001",7]}]}`,
+	`{"jsonrpc":"2.0","id":14,"method":"eth_subscribe","params":["logs",{"topics":"x"}]}`,
+	`{"jsonrpc":"2.0","id":15,"method":"eth_subscribe","params":["logs",{"topics":[5]}]}`,
+	`{"jsonrpc":"2.0","id":16,"method":"eth_subscribe","params":["logs",{"topics":[["0xa0",5]]}]}`,
+	`{"jsonrpc":"2.0","id":17,"method":"eth_subscribe","params":["logs",{"topics":[{"a":1}]}]}`,
+	`{"jsonrpc":"2.0","id":18,"method":"eth_subscribe","params":["logs",{"address":"nothex","topics":["zz"]}]}`,
+	`{"jsonrpc":"2.0","id":19,"method":"eth_subscribe","params":["logs",{"address":null,"topics":null,"fromBlock":"0x1","toBlock":"latest"}]}`,
+	`{"jsonrpc":"2.0","id":20,"method":"eth_subscribe","params":["logs",[{"address":"0xc0de000000000000000000000000000000000001"}]]}`,
+	`{"jsonrpc":"2.0","id":21,"method":"eth_subscribe","params":[5]}`,
+	`{"jsonrpc":"2.0","id":22,"method":"eth_subscribe","params":[]}`,
+	`{"jsonrpc":"2.0","id":23,"method":"eth_subscribe","params":"newHeads"}`,
+	`{"jsonrpc":"2.0","id":24,"method":"eth_subscribe"}`,
+	`{"jsonrpc":"2.0","id":25,"method":"eth_subscribe","params":["unknownKind"]}`,
+	`{"jsonrpc":"2.0","id":26,"method":"eth_subscribe","params":[null]}`,
+	`{"jsonrpc":"2.0","id":27,"method":"eth_subscribe","params":["newHeads",{"includeTransactions":true}]}`,
+	`{"jsonrpc":"2.0","id":1e400,"method":"eth_subscribe","params":["newHeads"]}`,
+}
+
+// c20WSRaw are messages that are not subscription requests at all.
+var c20WSRaw = []string{
+	``, `{`, `[]`, `[{}]`, `null`, `5`, `"eth_subscribe"`, `{"method":5}`, `{"id":1}`, `{"jsonrpc":"2.0","id":{},"method":"eth_subscribe","params":["newHeads"]}`,
+	`{"jsonrpc":"2.0","id":null,"method":"eth_unsubscribe","params":["0x1"]}`, `{"jsonrpc":"2.0","id":1,"method":"eth_unsubscribe","params":[5]}`,
+	`{"jsonrpc":"2.0","id":1,"method":"eth_unsubscribe","params":[]}`, `{"jsonrpc":"2.0","id":1,"method":"eth_unsubscribe","params":{"a":1}}`,
+	`{"jsonrpc":"2.0","id":1,"method":"eth_blockNumber","params":[]}`, `[{"jsonrpc":"2.0","id":1,"method":"eth_blockNumber","params":[]},{"jsonrpc":"2.0","id":2,"method":"eth_subscribe","params":["newHeads"]}]`,
+	`{"jsonrpc":"2.0","id":"abc","method":"eth_subscribe","params":["newHeads"]}`, `{"jsonrpc":"2.0","id":-1,"method":"eth_subscribe","params":["logs",{"topics":[[[[[[[[]]]]]]]]}]}`,
+	"\x00\x01\x02", `{"jsonrpc":"2.0","id":1,"method":"eth_subscribe","params":["logs",{"topics":[` + strings.Repeat(`"0xa0",`, 300) + `"0xa1"]}]}`,
 }
